@@ -50,18 +50,33 @@ def rule_exc1(A: Analysis, rep):
                 rep.bad("EXC1", "exec of user code in %s" % f.name, c, "user code is executed outside any try: a Python error in the COND file becomes a traceback")
                 continue
             types = [norm(h.type) if h.type is not None else "*" for h in tr.handlers]
-            need = {"SyntaxError"}
+            # SyntaxError ⊂ Exception: a catch-all clause contains every Python error raised by the user's file
             has_catch_all = any(t in ("Exception", "BaseException", "*") for t in types)
-            ok = need <= set(types) and has_catch_all
+            ok = has_catch_all
             rep.check(ok, "EXC1", "exec in %s is contained" % f.name, c, "handlers %s" % types,
-                      "handlers around exec are %s — SyntaxError and a catch-all `except Exception` are required so that any Python error is reported as an ERROR" % types)
+                      "handlers around exec are %s — a catch-all `except Exception` is required so that any Python error (syntax errors included) is reported as an ERROR" % types)
             g = A.cfg(f, "plain")
             for h in tr.handlers:
                 t = norm(h.type) if h.type is not None else "*"
                 hn = [n for n in g.nodes if n.kind == "except" and n.ast is h][0]
                 falls = g.exit in g.reach([hn], skip_labels=is_exc)
                 raises = [x for x in walk_local(h) if isinstance(x, ast.Raise)]
-                classes = [A.exc.exc_class(x.exc) if x.exc is not None else "reraise" for x in raises]
+                def _raised_classes(x, depth=0):
+                    """Classes of the value raised by `raise <x>`: a constructor call, or a local of the handler whose
+                    every definition is one (followed through plain copies)."""
+                    if x is None:
+                        return ["reraise"]
+                    k = A.exc.exc_class(x)
+                    if k is not None or not isinstance(x, ast.Name) or depth > 3 or x.id == h.name:
+                        return [k]
+                    ds = [d for d in A.defs(f, x.id) if isinstance(d, (ast.Assign, ast.AnnAssign)) and d.value is not None and id(d) in {id(y) for y in ast.walk(h)}]
+                    if not ds:
+                        return [None]
+                    out_ = []
+                    for d in ds:
+                        out_.extend(_raised_classes(d.value, depth + 1))
+                    return out_
+                classes = [c_ for x in raises for c_ in _raised_classes(x.exc)]
                 is_ce = lambda c_: c_ == "reraise" or (c_ is not None and A.prog.is_subclass(c_, CE))
                 if t == "ConductorError":
                     okh = not falls and bool(raises) and all(c_ == "reraise" or c_ == "conductor.errors.base.ConductorError" or is_ce(c_) for c_ in classes) and \
